@@ -7,13 +7,16 @@ from mutations import M
 args = [a for a in sys.argv[1:] if not a.startswith("--")]
 norac = "--norac" in sys.argv
 ok = bad = 0
+# SELFTEST_SRC: a snapshot of the repository to mutate (default: the working tree of /repo); SELFTEST_QV: the qv binary
+SRC = os.environ.get("SELFTEST_SRC", "/repo").rstrip("/")
+QV = os.environ.get("SELFTEST_QV", "/verif/bin/qv")
 for m in M:
     name, f, old, new, prop = m[:5]
     if args and not any(a in name for a in args):
         continue
-    if old is None:
+    if old is None or new is None:
         # special edits
-        src = open("/repo/" + f).read()
+        src = open(SRC + "/" + f).read()
         if name == "rule-mul-operand":
             i = src.index("func Mul(")
             src2 = src[:i] + src[i:].replace("return y.Gradient().Mul(b)", "return y.Gradient().Mul(a)", 1)
@@ -23,19 +26,19 @@ for m in M:
         else:
             continue
     else:
-        src = open("/repo/" + f).read()
+        src = open(SRC + "/" + f).read()
         if old not in src:
             print(f"SKIP {name}: pattern not found"); bad += 1; continue
         src2 = src.replace(old, new, 1)
     d = tempfile.mkdtemp(prefix="qvself")
     try:
-        subprocess.run(["cp", "-r", "/repo/.", d], check=True)
+        subprocess.run(["cp", "-r", SRC + "/.", d], check=True)
         open(os.path.join(d, f), "w").write(src2)
         b = subprocess.run(["go", "build", "./..."], cwd=d, capture_output=True, text=True, env=dict(os.environ, GOFLAGS="-mod=mod", GOPROXY="off", GOSUMDB="off", GOTOOLCHAIN="local"))
         if b.returncode != 0:
             print(f"SKIP {name}: does not compile: {b.stderr[:200]}"); bad += 1; continue
         t0 = time.time()
-        cmd = ["/verif/bin/qv", "check", "-prop", prop, "-tier", "quick", "-repo", d] + (["-norac"] if norac else [])
+        cmd = [QV, "check", "-prop", prop, "-tier", "quick", "-repo", d] + (["-norac"] if norac else [])
         p = subprocess.run(cmd, capture_output=True, text=True, cwd="/verif")
         viol = [l for l in p.stdout.splitlines() if l.startswith("VIOLATION")]
         if p.returncode == 1 and viol:
